@@ -265,6 +265,10 @@ func evalC20(c c20Case, o *Obs) error {
 		close(start)
 		wg.Wait()
 		// ---- after the join ----
+		// (6) the two views of "is a filter loaded" agree once everything is quiet
+		if loaded, msg := f.IsLoaded(), f.MsgFilterLoad(); loaded != (msg != nil) {
+			return fmt.Errorf("after the join IsLoaded() = %v but MsgFilterLoad() returns nil=%v; program %s", loaded, msg == nil, progString(c))
+		}
 		var all []c20Event
 		for g := range events {
 			all = append(all, events[g]...)
@@ -461,6 +465,28 @@ func genC20(t *rapid.T) c20Case {
 		c.Reps = pick(10, 40)
 		return c
 	}
+	if !c.Linear && rapid.IntRange(0, 5).Draw(t, "storm") == 0 {
+		// family: nothing but load-state changes and load-state queries, racing each other
+		g = rapid.SampledFrom([]int{2, 3, 4}).Draw(t, "stg")
+		for i := 0; i < g; i++ {
+			var prog []c20Op
+			for j := rapid.IntRange(20, 40).Draw(t, "stn"); j > 0; j-- {
+				switch rapid.IntRange(0, 3).Draw(t, "stop") {
+				case 0:
+					prog = append(prog, c20Op{Op: "reload", Len: c.Len, K: c.K})
+				case 1:
+					prog = append(prog, c20Op{Op: "unload"})
+				case 2:
+					prog = append(prog, c20Op{Op: "isloaded"})
+				default:
+					prog = append(prog, c20Op{Op: "msg"})
+				}
+			}
+			c.Progs = append(c.Progs, prog)
+		}
+		c.Reps = pick(200, 1000)
+		return c
+	}
 	for i := 0; i < g; i++ {
 		var prog []c20Op
 		n := rapid.IntRange(3, maxOps).Draw(t, "nops")
@@ -546,6 +572,29 @@ func evalC20GCS(c c20GCS, o *Obs) error {
 			return fmt.Errorf("FromNBytes failed: %v", err)
 		}
 		o.Class("C20:gcs-fresh-parsed-filter")
+	} else if c.Fresh == 3 {
+		// a parsed filter that declares more elements than its data holds: still immutable
+		raw, _ := f.Bytes()
+		declared := uint32(len(raw)*8 + 1000)
+		mk := func() (*gcs.Filter, error) { return gcs.FromBytes(declared, c.D.P, c.D.M, raw) }
+		g1, err := mk()
+		if err != nil {
+			return fmt.Errorf("FromBytes failed: %v", err)
+		}
+		for i, p := range probes { // sequential answers of this shape, on an object of its own
+			seq[i].m, _ = g1.Match(key, p)
+			seq[i].a, _ = g1.MatchAny(key, [][]byte{p, derivedItem(c.D.Seed+3, i)})
+			seq[i].z, _ = g1.ZipMatchAny(key, [][]byte{p})
+			seq[i].h, _ = g1.HashMatchAny(key, [][]byte{p})
+		}
+		if g1.N() != declared {
+			return fmt.Errorf("a filter parsed with N=%d reports N()=%d after being queried (queries must not modify the filter)", declared, g1.N())
+		}
+		if f, err = mk(); err != nil {
+			return fmt.Errorf("FromBytes failed: %v", err)
+		}
+		before, _ = f.NBytes()
+		o.Class("C20:gcs-parsed-filter-with-inflated-N")
 	}
 	if outDir != "" {
 		js, _ := json.Marshal(map[string]any{"property": "C20", "kind": "gcs", "case": c})
@@ -594,7 +643,7 @@ func evalC20GCS(c c20GCS, o *Obs) error {
 var kC20GCS = register(&Kind[c20GCS]{
 	Prop: "C20", Name: "gcs",
 	Gen: func(t *rapid.T) c20GCS {
-		return c20GCS{D: genGCSData(t, 300), G: rapid.SampledFrom([]int{2, 8, 32}).Draw(t, "g"), Fresh: rapid.IntRange(0, 2).Draw(t, "fresh")}
+		return c20GCS{D: genGCSData(t, 300), G: rapid.SampledFrom([]int{2, 8, 32}).Draw(t, "g"), Fresh: rapid.IntRange(0, 3).Draw(t, "fresh")}
 	},
 	Eval: evalC20GCS,
 })
